@@ -63,6 +63,12 @@ def datarates : RegionId → List (Option Datarate)
   | .IN865 => IN865_DATARATES
   | .US915 => US915_DATARATES
 
+/-- `FixedChannelRegion::MAX_UPLINK_DR`: data rates above it are downlink-only -/
+def maxUplinkDr : RegionId → Nat
+  | .US915 => 4
+  | .AU915 => 6
+  | _ => 15
+
 /-- `R::datarates()[dr as usize]` — indexing a 15-element array with a `u8` (panics past the end) -/
 def indexDatarate (r : RegionId) (dr : Nat) : M (Option Datarate) :=
   match (datarates r)[dr]? with
@@ -74,6 +80,10 @@ def getDatarate (r : RegionId) (dr : Nat) : Option Datarate :=
   match (datarates r)[dr]? with
   | some d => d
   | none => none
+
+/-- `is_uplink_datarate` -/
+def isUplinkDatarate (r : RegionId) (dr : Nat) : Bool :=
+  (if r.isFixed then dr ≤ maxUplinkDr r else true) && (getDatarate r dr).isSome
 
 def drOfNat (n : Nat) : M DR := ofGen "DR::from" (u8.into_DR (n : Int))
 
@@ -297,6 +307,14 @@ def JoinChannels.firstDataChannel {σ} (g : Rng σ) (j : JoinChannels) (s : σ) 
     (some (e % 8 + sb * 8), j, s)
   else (none, j, s)
 
+def setBanks : Mask → List (Nat × Nat) → M Mask
+  | m, [] => .ok m
+  | m, (i, v) :: rest => do setBanks (← m.setBank i v) rest
+
+def anyM {α} (f : α → M Bool) : List α → M Bool
+  | [] => .ok false
+  | a :: as => do if (← f a) then pure true else anyM f as
+
 /-! ## the RegionHandler operations -/
 
 structure TxChannel where
@@ -371,34 +389,52 @@ def selectTxChannel {σ} (g : Rng σ) (rs : RegionState) (datarate : DR) (frame 
         pure ({ dr := datarate, datarate := d, frequency := c.freq, rx1Frequency := c.rx1Frequency }, rs, s)
       | _ => panic "join channel unwrap"
     | .data =>
+      -- fall back to the default channels when the plan offers no usable channel
+      let usableAny ← anyM (fun i => do pure (← p.usable i).isSome) (List.range 16)
+      let p ← (if usableAny then pure p else do
+        let m ← (List.range (numJoinChannels rs.id)).foldlM (fun m i => m.setChannel i true) p.mask
+        pure { p with mask := m })
       let (c, s) ← dynDataLoop g p loopFuel s
       let d ← unwrapDatarate "datarates()[dr].unwrap" drv
-      pure ({ dr := datarate, datarate := d, frequency := c.freq, rx1Frequency := c.rx1Frequency }, rs, s)
+      pure ({ dr := datarate, datarate := d, frequency := c.freq, rx1Frequency := c.rx1Frequency }, { rs with plan := .dyn p }, s)
   | .fix p => do
     let joinDr (ch : Nat) : DR := if ch < 64 then DR._0 else join500kDr rs.id
-    let (dr, channel, jc, s) ← (match frame with
+    let (dr, channel, jc, mask, s) ← (match frame with
       | .join => do
         let (ch, jc, s) ← p.jc.getNextChannel g s
-        pure (joinDr ch, ch, jc, s)
+        pure (joinDr ch, ch, jc, p.mask, s)
       | .data =>
         if p.jc.hasBiasAndNotExhausted then do
           let (ch, jc, s) ← p.jc.getNextChannel g s
-          pure (joinDr ch, ch, jc, s)
+          pure (joinDr ch, ch, jc, p.mask, s)
         else
-          match p.jc.firstDataChannel g s with
-          | (some ch, jc, s) => pure (datarate, ch, jc, s)
-          | (none, jc, s) => do
-            let d ← unwrapDatarate "datarates()[datarate].unwrap" (← indexDatarate rs.id datarate.toInt.toNat)
+          do
+          let (pref, jc, s) := p.jc.firstDataChannel g s
+          let d ← unwrapDatarate "datarates()[datarate].unwrap" (← indexDatarate rs.id datarate.toInt.toNat)
+          -- the sub-band that served the join is only a preference
+          let usePref ← (match pref with
+            | some ch => do
+              let en ← p.mask.isEnabled ch
+              pure (en && d.bandwidth == Bandwidth._125KHz)
+            | none => pure false)
+          match pref, usePref with
+          | some ch, true => pure (datarate, ch, jc, p.mask, s)
+          | _, _ =>
+            -- re-enable the channels of the needed bandwidth when the mask offers none
             if d.bandwidth == Bandwidth._500KHz then
-              let (ch, s) ← fixedMaskLoop g p.mask 8 64 loopFuel s
-              pure (datarate, ch, jc, s)
+              let any500 ← anyM (fun i => p.mask.isEnabled i) ((List.range 8).map (· + 64))
+              let mask ← (if any500 then pure p.mask else p.mask.setBank 8 255)
+              let (ch, s) ← fixedMaskLoop g mask 8 64 loopFuel s
+              pure (datarate, ch, jc, mask, s)
             else
-              let (ch, s) ← fixedMaskLoop g p.mask 64 0 loopFuel s
-              pure (datarate, ch, jc, s))
+              let any125 ← anyM (fun i => p.mask.isEnabled i) (List.range 64)
+              let mask ← (if any125 then pure p.mask else setBanks p.mask ((List.range 8).map (fun i => (i, 255))))
+              let (ch, s) ← fixedMaskLoop g mask 64 0 loopFuel s
+              pure (datarate, ch, jc, mask, s))
     let d ← unwrapDatarate "datarates()[dr].unwrap" (← indexDatarate rs.id dr.toInt.toNat)
     match (uplinkChannels rs.id)[channel]?, (downlinkChannels rs.id)[channel % 8]? with
     | some f, some f1 =>
-      pure ({ dr := dr, datarate := d, frequency := f.toNat, rx1Frequency := f1.toNat }, { rs with plan := .fix { p with jc := jc } }, s)
+      pure ({ dr := dr, datarate := d, frequency := f.toNat, rx1Frequency := f1.toNat }, { rs with plan := .fix { mask := mask, jc := jc } }, s)
     | _, _ => panic "uplink_channels()[channel]"
 
 /-- CFList of a JoinAccept as the parser exposes it -/
@@ -432,10 +468,6 @@ def channelMaskSet (rs : RegionState) (m : Mask) : RegionState :=
   | .dyn p => { rs with plan := .dyn { p with mask := m } }
   | .fix p => { rs with plan := .fix { mask := m, jc := p.jc.reset } }
 
-def setBanks : Mask → List (Nat × Nat) → M Mask
-  | m, [] => .ok m
-  | m, (i, v) :: rest => do setBanks (← m.setBank i v) rest
-
 /-- `channel_mask_update`; `none` = the region does not define this ChMaskCntl -/
 def channelMaskUpdate (rs : RegionState) (m : Mask) (cntl : Nat) (b0 b1 : Nat) : M (Option Mask) :=
   match rs.plan with
@@ -466,10 +498,6 @@ def channelMaskUpdate (rs : RegionState) (m : Mask) (cntl : Nat) (b0 b1 : Nat) :
       let m ← setBanks m ((List.range 8).map (fun i => (i, 0)))
       pure (some (← m.setBank 8 b0))
     else pure none
-
-def anyM {α} (f : α → M Bool) : List α → M Bool
-  | [] => .ok false
-  | a :: as => do if (← f a) then pure true else anyM f as
 
 def countEnabled (m : Mask) : List Nat → Nat → M Nat
   | [], acc => .ok acc
